@@ -269,6 +269,10 @@ class Parser:
         token = self._assert(self.next_token, TokenType.BRACKET_RIGHT)
         token = self._assert_and_cunsume(TokenType.BRACKET_RIGHT)
         root.tokens.append(token)
+
+        if (token := self.next_token) and token.type == TokenType.BRACKET_RIGHT:
+            raise TokenTypeError(token, "BRACKET_LEFT, EOF")  # unbalanced
+
         return root
 
     def _parse_tree(self, root: ASTNode) -> None:
